@@ -286,36 +286,99 @@ def run(ctx):
     system.run(ctx, 'C09', nseq=(40 if ctx.quick else 300))
 
 
-def cli_path(ctx):
+def cli_fmt_outputs(ctx, d, p, png, src, run):
+    """runs `p8tool luafmt [--indentwidth=W]` on the fixture cart as .p8 and .p8.png; yields (W, cart name, source, output code, derivation)"""
+    from pico8.game import file as gfile
+    from .. import ast2deriv, cartio
+    deriv = ast2deriv.trace(src)['deriv']
+    combos = [(0, p), (3, p), (8, p), (None, p), (0, png), (8, png)] if ctx.quick else [(w_, p) for w_ in list(range(9)) + [None]] + [(0, png), (5, png), (8, png)]
+    for w, inp in combos:
+        outp = inp.replace('.p8', '_fmt.p8', 1)
+        if os.path.exists(outp):
+            os.unlink(outp)
+        rc = run(['luafmt'] + (['--indentwidth=%d' % w] if w is not None else []) + [inp])
+        if rc not in (0, None) or not os.path.exists(outp):
+            ctx.violation('cli-fails/luafmt/width-%s' % w, 'p8tool luafmt --indentwidth %s failed on the every-node fixture as %s (rc=%s)' % (w, os.path.basename(inp), rc), {'kind': 'cli'})
+            continue
+        yield (w, os.path.basename(inp), src, cartio.game_code(gfile.from_file(outp)), deriv)
+
+
+def cli_setup(ctx):
     import tempfile
     from pico8 import tool
-    from .. import ast2deriv
+    from pico8.game import file as gfile
     src = open(os.path.join(core.VERIF, 'fixtures', 'lua', 'every_node.lua'), 'rb').read()
     d = tempfile.mkdtemp(prefix='c09_', dir=ctx.tmp)
     p = os.path.join(d, 'in.p8')
     with open(p, 'wb') as f:
         f.write(b'pico-8 cartridge // http://www.pico-8.com\nversion 8\n__lua__\n' + src + b'__gfx__\n')
-    try:
-        rc = tool.main(['--quiet', 'luafmt', '--indentwidth=3', p])
-    except SystemExit as e:
-        rc = e.code
-    except Exception as e:  # noqa
-        rc = 'exception %s' % type(e).__name__
-    outp = os.path.join(d, 'in_fmt.p8')
-    if rc not in (0, None) or not os.path.exists(outp):
-        ctx.violation('cli-fails/luafmt', 'p8tool luafmt failed on the every-node fixture (rc=%s)' % rc, {'kind': 'cli'})
-        return
-    data = open(outp, 'rb').read()
-    a = data.index(b'__lua__\n') + 8
-    b = data.index(b'\n__gfx__') + 1
-    out = data[a:b]
-    tr = {'src': list(src), 'out': list(out), 'width': 3, 'deriv': ast2deriv.trace(src)['deriv'], 'statsIn': minify.stats_of(src),
-          'statsOut': minify.stats_of(out), 'again': [], 'variants': [], 'focus': 'C09'}
-    v = ctx.validate('TraceFmt', [tr])
-    if v[0][0] != 'ok':
-        ctx.violation('cli-luafmt/' + v[0][0], 'p8tool luafmt output rejected (%s)' % v[0][0], {'kind': 'cli'})
-    else:
-        ctx.nontrivial += 1
+    png = os.path.join(d, 'inpng.p8.png')
+    gfile.to_file(gfile.from_file(p), png)
+
+    def run(argv):
+        try:
+            return tool.main(['--quiet'] + argv)
+        except SystemExit as e:
+            return e.code
+        except Exception as e:  # noqa
+            return 'exception %s' % type(e).__name__
+    return d, p, png, src, run
+
+
+def cli_path(ctx):
+    """`p8tool luafmt` as the user runs it: every --indentwidth from 0 to 8 (the boundary values through the option parser),
+    .p8 and .p8.png carts; and carts picotool cannot parse to the end: the command must fail and write nothing shortened"""
+    from pico8.game import file as gfile
+    from .. import cartio
+    d, p, png, src, run = cli_setup(ctx)
+    traces, meta = [], []
+    for w, name, want, out, deriv in cli_fmt_outputs(ctx, d, p, png, src, run):
+        traces.append({'src': list(want), 'out': list(out), 'width': 2 if w is None else w, 'deriv': deriv, 'statsIn': minify.stats_of(want),
+                       'statsOut': minify.stats_of(out), 'again': [], 'variants': [], 'focus': 'C09'})
+        meta.append((w, name))
+    if traces:
+        v = ctx.validate('TraceFmt', traces)
+        for (w, name), vv in zip(meta, v):
+            ctx.evaluations += 1
+            if vv[0] != 'ok':
+                ctx.violation('cli-luafmt/%s/width-%s' % (vv[0], w), 'p8tool luafmt --indentwidth %s output for %s rejected (%s)' % (w, name, vv[0]), {'kind': 'cli'})
+            else:
+                ctx.nontrivial += 1
+    # not parsable to the end: the command must not succeed with a shortened program
+    for k, bad in enumerate(NEWER[:8]):
+        for ext in ('.p8', '.p8.png'):
+            ip = os.path.join(d, 'bad%d%s' % (k, ext))
+            g = cartio.make_game(cartio.memory((0, 0), {}), b'x=1\n', None, 16)
+            try:
+                g.lua._lexer._tokens = []
+                from pico8.lua import lua as plua
+                g.lua = plua.Lua.from_lines([b'-- t\n' + bad], 16)
+            except Exception:
+                continue        # picotool does not even load it
+            toks = [t for t in g.lua.tokens if type(t).__name__ in minify.SIGK]
+            if g.lua.root.end_pos >= len(g.lua.tokens) - 1 and sum(1 for t in g.lua.tokens[g.lua.root.end_pos:] if type(t).__name__ in minify.SIGK) == 0:
+                continue        # parsed completely: a valid program for picotool
+            try:
+                if ext == '.p8':
+                    with open(ip, 'wb') as f:
+                        f.write(b'pico-8 cartridge // http://www.pico-8.com\nversion 16\n__lua__\n-- t\n' + bad + b'__gfx__\n')
+                else:
+                    gfile.to_file(g, ip)        # (default writer: the echo needs no parse)
+            except Exception:
+                continue
+            outp = ip.replace('.p8', '_fmt.p8', 1)
+            rc = run(['luafmt', ip])
+            ctx.evaluations += 1
+            if rc in (0, None) and os.path.exists(outp):
+                out = cartio.game_code(gfile.from_file(outp))
+                vv = ctx.validate('TraceTokens', [{'src': list(b'-- t\n' + bad), 'out': list(out), 'renameOK': False}])
+                if vv[0][0] not in ('ok', 'ood'):
+                    ctx.violation('cli-silent-loss/%s/%s' % (ext, vv[0][0]), 'p8tool luafmt succeeded on a %s cart whose code picotool cannot parse to the end and wrote a shortened program (%s): %r -> %r' % (
+                        ext, vv[0][0], bad[:40], out[:40]), {'kind': 'cli-f5', 'src': list(bad)})
+                else:
+                    ctx.nontrivial += 1
+            else:
+                ctx.nontrivial += 1
 
 
 def replay(ctx, path):
